@@ -269,6 +269,12 @@ def phase(case, ctx, rng, st, am, label, held, last):
             B = N if N <= 8 else 8
             rows = V if N <= 8 else V[rng.integers(0, N, size=B)]
             init = torch.tensor(rows, dtype=torch.double)
+            if (k + case.get("rep", 0)) % 2 == 1:
+                # the start state as a strided / column-major / sliced view (a column block of a data table, every other
+                # row of a pool): with overwrite=True it is still the caller's memory that must hold the chain state
+                init, mform = gen.memory_form(init, rng, form=["strided", "column-major", "offset-slice"][int(rng.integers(0, 3))])
+                ctx.count("non_contiguous_start_states")
+                ctx.seen("start_state_memory_forms", mform)
             keep = init.clone()
             mon = monitors.DispatchMonitor(tap_bernoulli=True)
             if not overwrite:
